@@ -1360,7 +1360,8 @@ def _parse_source_for_lambda(
                 )
 
         def lambda_arg_list(lda: ast.Lambda) -> List[str]:
-            return [a.arg for a in lda.args.args]
+            # (`inspect.getfullargspec(f).args` lists the positional-only parameters too)
+            return [a.arg for a in list(lda.args.posonlyargs) + list(lda.args.args)]
 
         caller_arg_list = inspect.getfullargspec(ast_source).args
         good_lambdas = [
